@@ -124,6 +124,8 @@ class RealRouter:
         self.fired = []
         self.got = {}
         self.rule_pats = {}
+        self.churn = rng.random() < 0.3
+        self.churned = 0
 
     def handler(self, hid):
         if hid not in self.handlers:
@@ -150,16 +152,49 @@ class RealRouter:
         from ombott.router.errors import RouteMethodError, RouteBuildError
         from ombott.router.radidict import RadiDictError
         k = op['op']
+        if self.churn and self.rng.random() < 0.1:
+            # meanwhile another router of the process (a plug-in, a mounted application) registers typed rules of its own:
+            # many distinct filter specifications pass through whatever the filter factory shares between routers
+            from ombott.router.radirouter import RadiRouter
+            other = RadiRouter()
+            self.churned += 1
+            for n in range(70):
+                other.add('/churn%d-%d/<v:re(c{%d}%d)>' % (self.churned, n, n, self.churned), 'GET', self.handler(-1))
         try:
             if k == 'add':
                 r = op['r']
                 self.rule_pats[r['id']] = r['pat']
-                self.router.add(self.text(r, op.get('flavour')), op.get('spelled') or sorted(r['meths']), self.handler(r['id']), r['name'] or None,
-                                overwrite=op['ow'])
+                verbs = op.get('spelled') or sorted(r['meths'])
+                # the same registration through each public entry point, the verbs in every shape an iterable can take
+                shape = self.rng.choice(['list', 'list', 'tuple', 'gen', 'iter', 'set', 'str'])
+                if shape == 'tuple':
+                    verbs = tuple(verbs)
+                elif shape == 'gen':
+                    verbs = (v for v in list(verbs))
+                elif shape == 'iter':
+                    verbs = iter(list(verbs))
+                elif shape == 'set' and not op.get('spelled'):
+                    verbs = set(verbs)
+                elif shape == 'str' and len(verbs) == 1:
+                    verbs = verbs[0]
+                via = self.rng.choice(['router', 'router', 'add_route', 'route'])
+                rule, h, name = self.text(r, op.get('flavour')), self.handler(r['id']), r['name'] or None
+                if via == 'router':
+                    self.router.add(rule, verbs, h, name, overwrite=op['ow'])
+                elif via == 'add_route':
+                    self.app.add_route(rule, verbs, h, name, overwrite=op['ow'])
+                else:
+                    self.app.route(rule, method=verbs, name=name, overwrite=op['ow'])(h)
             elif k == 'remove_rule':
-                self.router.remove(self.text(op['r'], op.get('flavour')))
+                if self.rng.random() < 0.3:
+                    self.app.remove_route(self.text(op['r'], op.get('flavour')))
+                else:
+                    self.router.remove(self.text(op['r'], op.get('flavour')))
             elif k == 'remove_name':
-                self.router.remove(name=op['name'])
+                if self.rng.random() < 0.3:
+                    self.app.remove_route(name=op['name'])
+                else:
+                    self.router.remove(name=op['name'])
             elif k == 'remove_obj':
                 self.router.remove(self.router.routes[l2s(op['pat'])])
             elif k == 'remove_prefix':
@@ -174,9 +209,15 @@ class RealRouter:
                         rt.remove_method(op['meth'])
             elif k == 'add_hook':
                 r = op['r']
-                self.router.add_hook(self.text(r, op.get('flavour')), self.hook(r['pat']))
+                if self.rng.random() < 0.3:
+                    self.app.on_route(self.text(r, op.get('flavour')), self.hook(r['pat']))
+                else:
+                    self.router.add_hook(self.text(r, op.get('flavour')), self.hook(r['pat']))
             elif k == 'remove_hook':
-                self.router.remove_hook(self.text(op['r'], op.get('flavour')))
+                if self.rng.random() < 0.3:
+                    self.app.remove_route_hook(self.text(op['r'], op.get('flavour')))
+                else:
+                    self.router.remove_hook(self.text(op['r'], op.get('flavour')))
             else:
                 raise core.MachineryError('unknown op ' + k)
             return 'ok'
